@@ -68,7 +68,18 @@ def r6(ctx, retsets):
     s0 = sg[0]
     sa = [vf.expr(fn, a) for a in s0.args]
     out_al = vf.expr(fn, h.args[3])
-    wired = sa[0] == ("load", out_al) and sa[3] == ("load", ("arg", 2)) and fn.dom(h, s0)
+    # 'the digest just computed': on every path the signing call is executed after the hash call reported success (the hash may
+    # sit in a branch of its own, with the verdict carried in a variable to the branch that signs)
+    unhashed = []
+
+    def cl_order(inst, E, st):
+        if inst is h:
+            return [(["=h:ok"], {inst.ref: flow.av_in(E_["RTR_BGPSEC_SUCCESS"])}), (["=h:failed"], {inst.ref: ("nin", frozenset([E_["RTR_BGPSEC_SUCCESS"]]))})]
+        if inst is s0 and st.get("h") != "ok":
+            unhashed.append(st.get("h", "not executed"))
+        return None
+    es.count_effects(fn, pdb, cl_order, retsets, cap=96)
+    wired = sa[0] == ("load", out_al) and sa[3] == ("load", ("arg", 2)) and not unhashed
     ctx.check(wired, "C12.R6", "sign-the-digest", s0.loc(), "sign_byte_sequence(digest just computed, key, alg, *new_signature)", key="C12.R6:sign-args")
     sized = vf.expr(fn, ns[0].args[1])[0] in ("call",) and vf.expr(fn, ns[0].args[1])[1] == "ECDSA_size" or \
         (vf.mentions(vf.expr(fn, ns[0].args[1]), lambda x: isinstance(x, tuple) and x[0] == "call" and x[1] == "ECDSA_size"))
